@@ -9,6 +9,114 @@
 
 package mux
 
+// ---------------------------------------------------------------------------
+// C14: the multiplexer picks the most specific registered handler
+
+//@ spec pat(space string, local string, st string, typ string) pattern = mk(pattern, mk(xml.Name, space, local), st, typ)
+//@ spec name(space string, local string) xml.Name = mk(xml.Name, space, local)
+
+// lookup order: exact name, local name only, namespace only, bare type wildcard
+//@ func (*ServeMux).IQHandler
+//@   ensures[C14] m.iqPatterns[pat(payload.Space, payload.Local, "iq", string(typ))] != nil ==> ok && h == m.iqPatterns[pat(payload.Space, payload.Local, "iq", string(typ))]
+//@   ensures[C14] m.iqPatterns[pat(payload.Space, payload.Local, "iq", string(typ))] == nil && m.iqPatterns[pat("", payload.Local, "iq", string(typ))] != nil ==> ok && h == m.iqPatterns[pat("", payload.Local, "iq", string(typ))]
+//@   ensures[C14] m.iqPatterns[pat(payload.Space, payload.Local, "iq", string(typ))] == nil && m.iqPatterns[pat("", payload.Local, "iq", string(typ))] == nil && m.iqPatterns[pat(payload.Space, "", "iq", string(typ))] != nil ==> ok && h == m.iqPatterns[pat(payload.Space, "", "iq", string(typ))]
+//@   ensures[C14] m.iqPatterns[pat(payload.Space, payload.Local, "iq", string(typ))] == nil && m.iqPatterns[pat("", payload.Local, "iq", string(typ))] == nil && m.iqPatterns[pat(payload.Space, "", "iq", string(typ))] == nil && m.iqPatterns[pat("", "", "iq", string(typ))] != nil ==> ok && h == m.iqPatterns[pat("", "", "iq", string(typ))]
+//@   ensures[C14] m.iqPatterns[pat(payload.Space, payload.Local, "iq", string(typ))] == nil && m.iqPatterns[pat("", payload.Local, "iq", string(typ))] == nil && m.iqPatterns[pat(payload.Space, "", "iq", string(typ))] == nil && m.iqPatterns[pat("", "", "iq", string(typ))] == nil ==> !ok
+//@   ensures[C14] h != nil
+
+//@ func (*ServeMux).MessageHandler
+//@   ensures[C14] m.msgPatterns[pat(payload.Space, payload.Local, "message", string(typ))] != nil ==> ok && h == m.msgPatterns[pat(payload.Space, payload.Local, "message", string(typ))]
+//@   ensures[C14] m.msgPatterns[pat(payload.Space, payload.Local, "message", string(typ))] == nil && m.msgPatterns[pat("", payload.Local, "message", string(typ))] != nil ==> ok && h == m.msgPatterns[pat("", payload.Local, "message", string(typ))]
+//@   ensures[C14] m.msgPatterns[pat(payload.Space, payload.Local, "message", string(typ))] == nil && m.msgPatterns[pat("", payload.Local, "message", string(typ))] == nil && m.msgPatterns[pat(payload.Space, "", "message", string(typ))] != nil ==> ok && h == m.msgPatterns[pat(payload.Space, "", "message", string(typ))]
+//@   ensures[C14] m.msgPatterns[pat(payload.Space, payload.Local, "message", string(typ))] == nil && m.msgPatterns[pat("", payload.Local, "message", string(typ))] == nil && m.msgPatterns[pat(payload.Space, "", "message", string(typ))] == nil && m.msgPatterns[pat("", "", "message", string(typ))] != nil ==> ok && h == m.msgPatterns[pat("", "", "message", string(typ))]
+//@   ensures[C14] m.msgPatterns[pat(payload.Space, payload.Local, "message", string(typ))] == nil && m.msgPatterns[pat("", payload.Local, "message", string(typ))] == nil && m.msgPatterns[pat(payload.Space, "", "message", string(typ))] == nil && m.msgPatterns[pat("", "", "message", string(typ))] == nil ==> !ok
+//@   ensures[C14] h != nil
+
+//@ func (*ServeMux).PresenceHandler
+//@   ensures[C14] m.presencePatterns[pat(payload.Space, payload.Local, "presence", string(typ))] != nil ==> ok && h == m.presencePatterns[pat(payload.Space, payload.Local, "presence", string(typ))]
+//@   ensures[C14] m.presencePatterns[pat(payload.Space, payload.Local, "presence", string(typ))] == nil && m.presencePatterns[pat("", payload.Local, "presence", string(typ))] != nil ==> ok && h == m.presencePatterns[pat("", payload.Local, "presence", string(typ))]
+//@   ensures[C14] m.presencePatterns[pat(payload.Space, payload.Local, "presence", string(typ))] == nil && m.presencePatterns[pat("", payload.Local, "presence", string(typ))] == nil && m.presencePatterns[pat(payload.Space, "", "presence", string(typ))] != nil ==> ok && h == m.presencePatterns[pat(payload.Space, "", "presence", string(typ))]
+//@   ensures[C14] m.presencePatterns[pat(payload.Space, payload.Local, "presence", string(typ))] == nil && m.presencePatterns[pat("", payload.Local, "presence", string(typ))] == nil && m.presencePatterns[pat(payload.Space, "", "presence", string(typ))] == nil && m.presencePatterns[pat("", "", "presence", string(typ))] != nil ==> ok && h == m.presencePatterns[pat("", "", "presence", string(typ))]
+//@   ensures[C14] m.presencePatterns[pat(payload.Space, payload.Local, "presence", string(typ))] == nil && m.presencePatterns[pat("", payload.Local, "presence", string(typ))] == nil && m.presencePatterns[pat(payload.Space, "", "presence", string(typ))] == nil && m.presencePatterns[pat("", "", "presence", string(typ))] == nil ==> !ok
+//@   ensures[C14] h != nil
+
+// top-level elements: exact name, local name, namespace, then the stanza
+// routers for stanzas of the multiplexer's content namespace (an empty
+// stanzaNS matches every namespace)
+//@ func (*ServeMux).Handler
+//@   ensures[C14] m.patterns[name] != nil ==> ok && h == m.patterns[name]
+//@   ensures[C14] m.patterns[name] == nil && m.patterns[name("", name.Local)] != nil ==> ok && h == m.patterns[name("", name.Local)]
+//@   ensures[C14] m.patterns[name] == nil && m.patterns[name("", name.Local)] == nil && m.patterns[name(name.Space, "")] != nil ==> ok && h == m.patterns[name(name.Space, "")]
+//@   ensures[C14] m.patterns[name] == nil && m.patterns[name("", name.Local)] == nil && m.patterns[name(name.Space, "")] == nil ==> (ok <==> (m.stanzaNS == "" || name.Space == m.stanzaNS) && (name.Local == "iq" || name.Local == "message" || name.Local == "presence"))
+//@   ensures[C14] h != nil
+
+// registration: refused (panic) exactly for a nil handler or a duplicate
+// pattern; otherwise the table gains exactly that entry
+//@ func IQ$1
+//@   panics[C14] h == nil || has(m.iqPatterns, pat(payload.Space, payload.Local, "iq", string(typ)))
+//@   ensures[C14] m.iqPatterns[pat(payload.Space, payload.Local, "iq", string(typ))] == h
+//@   ensures[C14] forall k pattern :: k != pat(payload.Space, payload.Local, "iq", string(typ)) ==> m.iqPatterns[k] == old(m.iqPatterns[k])
+
+//@ func Message$1
+//@   panics[C14] h == nil || has(m.msgPatterns, pat(payload.Space, payload.Local, "message", string(typ)))
+//@   ensures[C14] m.msgPatterns[pat(payload.Space, payload.Local, "message", string(typ))] == h
+//@   ensures[C14] forall k pattern :: k != pat(payload.Space, payload.Local, "message", string(typ)) ==> m.msgPatterns[k] == old(m.msgPatterns[k])
+
+//@ func Presence$1
+//@   panics[C14] h == nil || has(m.presencePatterns, pat(payload.Space, payload.Local, "presence", string(typ)))
+//@   ensures[C14] m.presencePatterns[pat(payload.Space, payload.Local, "presence", string(typ))] == h
+//@   ensures[C14] forall k pattern :: k != pat(payload.Space, payload.Local, "presence", string(typ)) ==> m.presencePatterns[k] == old(m.presencePatterns[k])
+
+//@ func Handle$1
+//@   panics[C14] h == nil || n.Local == "iq" || n.Local == "message" || n.Local == "presence" || has(m.patterns, n)
+//@   ensures[C14] m.patterns[n] == h
+//@   ensures[C14] forall k xml.Name :: k != n ==> m.patterns[k] == old(m.patterns[k])
+
+// the replaying reader handed to message/presence handlers
+//@ func (*bufReader).Token
+//@   callsite (encoding/xml.TokenReader).Token#1
+//@     assume[C14] same(r.buf, old(r.buf)) && r.offset == old(r.offset)
+//@   ensures[C14] old(r.offset) < len(old(r.buf)) ==> result0 == old(r.buf[r.offset]) && r.offset == old(r.offset)+1 && same(r.buf, old(r.buf)) && result1 == nil
+//@   ensures[C14] len(r.buf) >= len(old(r.buf))
+
+// dispatch of message and presence children: every handler gets a reader that
+// replays the stanza from its start element; empty stanzas go to the type
+// wildcard (empty payload name) with the reader rewound.
+// xmlstream.Iter and the handlers use the buffered reader only through its
+// Token method, which never shrinks the buffer (proved above); this is what
+// the assume clauses below state.
+//@ func forChildren
+//@   loop 1
+//@     invariant[C14] len(r.buf) >= 1
+//@   callsite mellium.im/xmlstream.NewIter#1
+//@     assume[C14] len(r.buf) >= 1
+//@   callsite (*mellium.im/xmlstream.Iter).Next#1
+//@     assume[C14] len(r.buf) >= 1
+//@   callsite (*mellium.im/xmlstream.Iter).Current#1
+//@     assume[C14] len(r.buf) >= 1
+//@   callsite (*ServeMux).PresenceHandler#1
+//@     assert[C14] arg2 == start.Name
+//@   callsite (*ServeMux).MessageHandler#1
+//@     assert[C14] arg2 == start.Name
+//@   callsite (mux.PresenceHandler).HandlePresence#1
+//@     assert[C14] br.offset == 0 && len(br.buf) >= 1 && same(br.buf, r.buf)
+//@     assume[C14] len(br.buf) >= 1
+//@   callsite (mux.MessageHandler).HandleMessage#1
+//@     assert[C14] br.offset == 0 && len(br.buf) >= 1 && same(br.buf, r.buf)
+//@     assume[C14] len(br.buf) >= 1
+//@   callsite (*ServeMux).PresenceHandler#2
+//@     assert[C14] arg2 == name("", "") && r.offset == 0 && len(r.buf) == 2
+//@   callsite (*ServeMux).MessageHandler#2
+//@     assert[C14] arg2 == name("", "") && r.offset == 0 && len(r.buf) == 2
+
+// unhandled IQs: nothing is written for result and error IQs
+//@ func iqFallback
+//@   ghost wrote bool = false
+//@   callsite mellium.im/xmlstream.Copy#1
+//@     after: wrote = true
+//@   ensures[C14] (iq.Type == "result" || iq.Type == "error") ==> result == nil && !wrote
+//@   ensures[C14] !(iq.Type == "result" || iq.Type == "error") ==> wrote
+
 // BEGIN enrolment C09 (generated by the safety sweep: every safety obligation of these functions is discharged)
 //@ nopanic [C09] (*ServeMux).ForFeatures
 //@ nopanic [C09] (*ServeMux).ForForms
